@@ -241,7 +241,14 @@ func (im indexManager) searchParallel(
 	}
 	// ---------------------------
 	if len(queries) == 1 {
-		// Shortcut, no merging required
+		/* Shortcut, no merging required. A composite query still returns its
+		 * results highest hybrid score first like the merged case below. A single
+		 * ranking sub-query arrives in its own order (nearest or best match
+		 * first) which is lowest hybrid score first when its weight is negative.
+		 * The sort is stable so nothing moves otherwise. */
+		slices.SortStableFunc(results[0], func(a, b models.SearchResult) int {
+			return cmp.Compare(b.HybridScore, a.HybridScore)
+		})
 		return sets[0], results[0], nil
 	}
 	// ---------------------------
